@@ -36,6 +36,7 @@ type c19Case struct {
 	Phone        string  `json:"phone,omitempty"`
 	V2019        bool    `json:"v2019,omitempty"`
 	OtherPhone   string  `json:"other_phone,omitempty"`
+	PhoneRaw     kit.Hex `json:"phone_bytes,omitempty"` // phone field with nibbles a..f (the directory is named after its hex rendering)
 	Again        bool    `json:"session_repeated_on_a_new_connection,omitempty"`
 	AgainAlarmID kit.Hex `json:"alarm_id_of_the_repeat,omitempty"`
 }
@@ -175,6 +176,31 @@ func genC19(t *rapid.T) c19Case {
 		c.Overlap = true
 	case 3:
 		c.V2019 = true
+	case 4: // a phone field that is not decimal BCD; the other terminal's decimal phone equals its digits-only part
+		n := 6
+		if c.V2019 = rapid.Bool().Draw(t, "raw_v2019"); c.V2019 {
+			n = 10
+		}
+		raw := make([]byte, n)
+		for i := range raw {
+			raw[i] = rapid.SampledFrom([]byte{0xff, 0xa1, 0x38, 0x00, 0x13, 0x9f, 0xf0, 0x0a, 0x02}).Draw(t, "raw_phone")
+		}
+		if rapid.IntRange(0, 3).Draw(t, "all_ff") == 0 {
+			for i := range raw {
+				raw[i] = 0xff
+			}
+		}
+		c.PhoneRaw = raw
+		digits := ""
+		for _, ch := range ref.PhoneDigits(raw) {
+			if ch >= '0' && ch <= '9' {
+				digits += string(ch)
+			}
+		}
+		if d := ref.StripZeros(digits); len(d) >= 1 && len(d) <= 12 && d != ref.StripZeros(ref.PhoneDigits(raw)) {
+			c.OtherPhone = d
+			c.Overlap = true
+		}
 	}
 	if rapid.IntRange(0, 3).Draw(t, "again") == 0 {
 		c.Again = true
@@ -200,7 +226,7 @@ func checkC19(c c19Case, _ *kit.Collector) kit.Result {
 	if tid == nil {
 		tid = kit.Hex("T1")
 	}
-	s := upScript{Dialect: c.Dialect, TerminalID: tid, AlarmID: alarm, Phone: c.Phone, V2019: c.V2019}
+	s := upScript{Dialect: c.Dialect, TerminalID: tid, AlarmID: alarm, Phone: c.Phone, V2019: c.V2019, PhoneRaw: c.PhoneRaw}
 	otherPhone := c.OtherPhone
 	if otherPhone == "" {
 		otherPhone = c19OtherPhone
@@ -334,7 +360,11 @@ func checkC19(c c19Case, _ *kit.Collector) kit.Result {
 	if c.Phone != "" {
 		phone = ref.StripZeros(c.Phone)
 	}
-	if c.Phone != "" || c.V2019 {
+	if len(c.PhoneRaw) > 0 {
+		phone = ref.StripZeros(ref.PhoneDigits(c.PhoneRaw))
+		res.Labels = append(res.Labels, "phone_with_hex_nibbles")
+	}
+	if c.Phone != "" || c.V2019 || len(c.PhoneRaw) > 0 {
 		res.Labels = append(res.Labels, "phone_other_than_the_default")
 	}
 	allowedDir := filepath.Join(sandboxRoot, "work", phone)
